@@ -1842,3 +1842,47 @@ def r13(cx):
 
 
 RS.explanation += ' Nothing changes a disposition or returns between block_sigint_sigquit and restore_sigmask (R13 = C11.R12).'
+
+
+# ---------------------------------------------------------------- added after seed wave 4 (C08-s8: disown_all also forgot $!)
+LAST_ASYNC_SETTERS = {
+    'yash_semantics::command::item::execute_async': 'the asynchronous list `cmd &` (POSIX 2.5.2: $! is the most recent background command)',
+    'yash_builtin::bg::resume_job_by_index': 'the bg built-in (POSIX bg: $! becomes the process ID of the resumed job)',
+}
+
+
+@RS.rule('C08.R14', 'K-WRITERS+K-CALLERS', '`$!` is part of what a subshell inherits (a subshell is a duplicate of the shell environment, XCU 2.12: '
+         '`cmd & (kill $!)`, `pid=$(echo $!)`): the remembered process ID is written only by JobList::set_last_async_pid, which only the '
+         'asynchronous list and the bg built-in call - nothing on the subshell-entry path (disown_all, Config::start) touches it')
+def r14(cx):
+    F = cx.F
+    JL = 'yash_env::job::JobList'
+    cx.require(any(f['name'] == 'last_async_pid' for v in F.adts[JL]['variants'] for f in v['fields']), 'JobList has no field last_async_pid any more')
+    n = 0
+    for b in F.bodies.values():
+        for w in Q.field_writes(b, JL, 'last_async_pid'):
+            n += 1
+            cx.fn(b.fn)
+            cx.site('%s: %s of JobList::last_async_pid at %s' % (b.fn, w[3], b.loc(w[2])))
+            if not b.root.endswith('JobList::set_last_async_pid'):
+                cx.violation(b.root, 'last-async-pid-written', '%s changes the remembered process ID of the last asynchronous command: only '
+                             'set_last_async_pid may (a subshell must see the `$!` of its parent: with this write on the subshell-entry path '
+                             '`cmd & (kill $!)` and `pid=$(echo $!)` lose the process ID)' % b.root, loc=b.loc(w[2]))
+        for blk, j, st in Q.find_aggregates(b, JL):
+            cx.site('%s builds a JobList at %s' % (b.fn, b.loc(st)))
+            if not re.search(r'<yash_env::job::JobList as core::(clone::Clone|default::Default)>::(clone|default)$', b.root):
+                cx.violation(b.root, 'joblist-rebuilt', 'a JobList is built outside Default / Clone: the remembered `$!` of the parent is not carried over',
+                             loc=b.loc(st))
+    cx.floor(n, 1, 'writes of JobList::last_async_pid')
+    callers = F.callers_of(lambda names, t: any(nm.endswith('JobList::set_last_async_pid') for nm in names))
+    cx.floor(len(callers), 2, 'callers of set_last_async_pid')
+    for b, blk, t in callers:
+        cx.fn(b.fn)
+        why = LAST_ASYNC_SETTERS.get(b.root)
+        cx.site('%s calls set_last_async_pid at %s: %s' % (b.root, b.loc(t), why or 'NOT REVIEWED'))
+        if why is None:
+            cx.violation(b.root, 'caller:set_last_async_pid', '`$!` is changed by %s, which is neither the asynchronous list nor the bg built-in' % b.root,
+                         loc=b.loc(t))
+
+
+RS.explanation += ' `$!` is written only by set_last_async_pid, called only by the asynchronous list and bg: subshell entry leaves it alone (R14).'
